@@ -276,6 +276,9 @@ def replay_case(args):
 REPLAYERS = {"case": replay_case}
 
 
+SHARDABLE = True
+
+
 def run(chk, only=None):
     from yadism.esf import tmc
 
@@ -300,6 +303,8 @@ def run(chk, only=None):
             continue
         case = dict(kind=kind, mode=mode, flavor=flav)
         cname = f"{kind}_{flav}/TMC={mode}({MODES[mode]})"
+        if not chk.mine(cname):
+            continue
         with Ctx(chk.seed) as ctx:
             env = Env(ctx)
 
@@ -357,6 +362,8 @@ def run(chk, only=None):
                     chk.prove(f"{cname}/path{paths.index(p)}:M=0:{o}", got.t == ref.t, m0, key=f"tmc:{kind}:{mode}:M0",
                               replay=lambda m, case=case, vals=vals: ("case", dict(case=case, values=dict(vals(m), rho=1.0))),
                               what=f"{cname}: result at M=0 is not the uncorrected structure function")
+    if not chk.first:
+        return chk.finish(explanation="shard of C10 (see the merged evidence)", rule="")
     with Ctx(chk.seed) as ctx:
         V = grid_and_params(ctx)
         chk.expect_sat("domain", ctx.facts())
